@@ -46,7 +46,25 @@ type faultPlan struct {
 	Plan    string `json:"plan"` // failFrom, failOnly, none
 	K       int    `json:"k"`
 	Partial bool   `json:"partial"`
+	// Withhold (with Partial): the failing ReadAt delivers all but the last
+	// Withhold bytes asked for (0: the first half).  A request of at most
+	// Withhold bytes delivers its first half.
+	Withhold int `json:"withhold"`
 }
+
+// keep tells how many of the n bytes asked for come with the error.
+func (p faultPlan) keep(n int) int {
+	if p.Withhold > 0 && n > p.Withhold {
+		return n - p.Withhold
+	}
+	return n / 2
+}
+
+// flavours of a failing operation: no data, half of it, all but the last 16 / 64 / 256 bytes
+var readFlavours = []struct {
+	partial  bool
+	withhold int
+}{{false, 0}, {true, 0}, {true, 16}, {true, 64}, {true, 256}}
 
 func (p faultPlan) faulty(i int) bool {
 	switch p.Plan {
@@ -163,7 +181,7 @@ func (f *faultSrc) ReadAt(p []byte, off int64) (int, error) {
 	f.mu.Unlock()
 	if bad {
 		if f.plan.Partial && len(p) > 1 {
-			n, _ := f.r.ReadAt(p[:len(p)/2], off)
+			n, _ := f.r.ReadAt(p[:f.plan.keep(len(p))], off)
 			return n, f.err
 		}
 		return 0, f.err
@@ -528,7 +546,7 @@ func callSiteSkip(skip int) site {
 func (f *faultSink) Write(p []byte) (int, error) {
 	if f.op() {
 		if f.plan.Partial && len(p) > 1 {
-			n := len(p) / 2
+			n := f.plan.keep(len(p))
 			f.put(p[:n])
 			return n, f.err
 		}
@@ -587,24 +605,35 @@ type docSpec struct {
 	Seed int64             `json:"seed"`
 	Opt  shared.DocOptions `json:"opt"`
 	Name string            `json:"name"`
+	// History, if not empty, asks for a file with incremental updates rendered
+	// by harness/indep/ser (see historyDoc) instead of a Writer-made document.
+	History string `json:"history,omitempty"`
 }
 
 func docSpecs(ctx *core.Ctx) []docSpec {
 	s := ctx.Seed * 1000
 	eol := []shared.BodyKind{shared.BodyEOL, shared.BodyCR, shared.BodyPlain, shared.BodyEOLEndstream, shared.BodyEndobj, shared.BodyEmpty}
 	specs := []docSpec{
-		{s + 1, shared.DocOptions{Version: pdf.V1_4, Seekable: true, Objects: 9, MinStreams: 2, Bodies: eol, Info: true}, "table-1.4"},
-		{s + 2, shared.DocOptions{Version: pdf.V1_7, XRefStream: true, ObjStm: true, Seekable: true, Objects: 10, Bodies: eol, Filters: shared.AllFilters, Info: true}, "xrefstream-objstm-filters"},
-		{s + 3, shared.DocOptions{Version: pdf.V1_6, Encrypt: true, Seekable: true, Objects: 8, Bodies: eol, Filters: []string{"Flate", "ASCII85"}, Info: true}, "table-1.6-aes128"},
-		{s + 4, shared.DocOptions{Version: pdf.V1_4, Seekable: false, Objects: 5, MinStreams: 2, Bodies: []shared.BodyKind{shared.BodyBig}, Info: false}, "table-1.4-noseek-indirect-length"},
+		{s + 1, shared.DocOptions{Version: pdf.V1_4, Seekable: true, Objects: 9, MinStreams: 2, Bodies: eol, Info: true}, "table-1.4", ""},
+		{s + 2, shared.DocOptions{Version: pdf.V1_7, XRefStream: true, ObjStm: true, Seekable: true, Objects: 10, Bodies: eol, Filters: shared.AllFilters, Info: true}, "xrefstream-objstm-filters", ""},
+		{s + 3, shared.DocOptions{Version: pdf.V1_6, Encrypt: true, Seekable: true, Objects: 8, Bodies: eol, Filters: []string{"Flate", "ASCII85"}, Info: true}, "table-1.6-aes128", ""},
+		{s + 4, shared.DocOptions{Version: pdf.V1_4, Seekable: false, Objects: 5, MinStreams: 2, Bodies: []shared.BodyKind{shared.BodyBig}, Info: false}, "table-1.4-noseek-indirect-length", ""},
 	}
+	// incremental updates: two or three small revisions, every one changing values
+	specs = append(specs,
+		docSpec{Seed: s + 20, Name: "history-table-table", History: "table-table"},
+		docSpec{Seed: s + 21, Name: "history-stream-stream-stream", History: "stream-stream-stream"})
 	if ctx.Thorough() {
 		specs = append(specs,
-			docSpec{s + 5, shared.DocOptions{Version: pdf.V2_0, XRefStream: true, ObjStm: true, Encrypt: true, Seekable: false, Objects: 12, Bodies: shared.AllBodies, Filters: shared.AllFilters, Info: true}, "2.0-aes256-objstm-noseek"},
-			docSpec{s + 6, shared.DocOptions{Version: pdf.V1_3, Encrypt: true, Seekable: true, Objects: 10, Bodies: eol, Filters: []string{"LZW", "RunLength", "ASCIIHex"}}, "table-1.3-rc4"},
-			docSpec{s + 7, shared.DocOptions{Version: pdf.V1_5, XRefStream: true, Seekable: true, Objects: 14, Bodies: shared.AllBodies, Info: true}, "xrefstream-1.5-plain"},
-			docSpec{s + 8, shared.DocOptions{Version: pdf.V1_7, Seekable: true, Objects: 14, Bodies: shared.AllBodies, Filters: []string{"Flate"}, Info: true}, "table-1.7-pretty"},
-			docSpec{s + 9, shared.DocOptions{Version: pdf.V1_2, Seekable: false, Objects: 10, Bodies: []shared.BodyKind{shared.BodyBig, shared.BodyEOL, shared.BodyEOLEndstream}, Filters: []string{"ASCIIHex"}}, "table-1.2-noseek"})
+			docSpec{Seed: s + 22, Name: "history-table-table-table", History: "table-table-table"},
+			docSpec{Seed: s + 23, Name: "history-stream-stream", History: "stream-stream"},
+			docSpec{Seed: s + 24, Name: "history-table-table-b", History: "table-table"})
+		specs = append(specs,
+			docSpec{s + 5, shared.DocOptions{Version: pdf.V2_0, XRefStream: true, ObjStm: true, Encrypt: true, Seekable: false, Objects: 12, Bodies: shared.AllBodies, Filters: shared.AllFilters, Info: true}, "2.0-aes256-objstm-noseek", ""},
+			docSpec{s + 6, shared.DocOptions{Version: pdf.V1_3, Encrypt: true, Seekable: true, Objects: 10, Bodies: eol, Filters: []string{"LZW", "RunLength", "ASCIIHex"}}, "table-1.3-rc4", ""},
+			docSpec{s + 7, shared.DocOptions{Version: pdf.V1_5, XRefStream: true, Seekable: true, Objects: 14, Bodies: shared.AllBodies, Info: true}, "xrefstream-1.5-plain", ""},
+			docSpec{s + 8, shared.DocOptions{Version: pdf.V1_7, Seekable: true, Objects: 14, Bodies: shared.AllBodies, Filters: []string{"Flate"}, Info: true}, "table-1.7-pretty", ""},
+			docSpec{s + 9, shared.DocOptions{Version: pdf.V1_2, Seekable: false, Objects: 10, Bodies: []shared.BodyKind{shared.BodyBig, shared.BodyEOL, shared.BodyEOLEndstream}, Filters: []string{"ASCIIHex"}}, "table-1.2-noseek", ""})
 	}
 	return specs
 }
@@ -616,17 +645,17 @@ func writeSpecs(ctx *core.Ctx) []docSpec {
 	s := ctx.Seed*1000 + 500
 	big := []shared.BodyKind{shared.BodyBig}
 	specs := []docSpec{
-		{s + 1, shared.DocOptions{Version: pdf.V1_4, Seekable: true, Objects: 16, MinStreams: 3, Bodies: big, Info: true}, "w-table-seekable"},
-		{s + 2, shared.DocOptions{Version: pdf.V1_4, Seekable: false, Objects: 16, MinStreams: 3, Bodies: big, Info: true}, "w-table-nonseekable"},
-		{s + 3, shared.DocOptions{Version: pdf.V1_7, XRefStream: true, ObjStm: true, Seekable: true, Objects: 20, MinStreams: 3, Bodies: big, Filters: []string{"ASCIIHex", "Flate"}}, "w-xrefstream-objstm-seekable"},
-		{s + 4, shared.DocOptions{Version: pdf.V1_6, Encrypt: true, Seekable: false, Objects: 14, MinStreams: 3, Bodies: big, Filters: []string{"ASCII85"}, Info: true}, "w-aes128-nonseekable"},
+		{s + 1, shared.DocOptions{Version: pdf.V1_4, Seekable: true, Objects: 16, MinStreams: 3, Bodies: big, Info: true}, "w-table-seekable", ""},
+		{s + 2, shared.DocOptions{Version: pdf.V1_4, Seekable: false, Objects: 16, MinStreams: 3, Bodies: big, Info: true}, "w-table-nonseekable", ""},
+		{s + 3, shared.DocOptions{Version: pdf.V1_7, XRefStream: true, ObjStm: true, Seekable: true, Objects: 20, MinStreams: 3, Bodies: big, Filters: []string{"ASCIIHex", "Flate"}}, "w-xrefstream-objstm-seekable", ""},
+		{s + 4, shared.DocOptions{Version: pdf.V1_6, Encrypt: true, Seekable: false, Objects: 14, MinStreams: 3, Bodies: big, Filters: []string{"ASCII85"}, Info: true}, "w-aes128-nonseekable", ""},
 	}
 	if ctx.Thorough() {
 		specs = append(specs,
-			docSpec{s + 5, shared.DocOptions{Version: pdf.V2_0, XRefStream: true, ObjStm: true, Encrypt: true, Seekable: true, Objects: 30, MinStreams: 5, Bodies: big, Filters: shared.AllFilters, Info: true}, "w-2.0-aes256-seekable"},
-			docSpec{s + 6, shared.DocOptions{Version: pdf.V1_7, Seekable: true, Objects: 40, MinStreams: 8, Bodies: big, Info: true}, "w-pretty-seekable"},
-			docSpec{s + 7, shared.DocOptions{Version: pdf.V1_5, XRefStream: true, Seekable: false, Objects: 40, MinStreams: 8, Bodies: big, Filters: []string{"LZW"}}, "w-xrefstream-nonseekable"},
-			docSpec{s + 8, shared.DocOptions{Version: pdf.V1_3, Encrypt: true, Seekable: true, Objects: 24, MinStreams: 6, Bodies: big}, "w-rc4-seekable"})
+			docSpec{s + 5, shared.DocOptions{Version: pdf.V2_0, XRefStream: true, ObjStm: true, Encrypt: true, Seekable: true, Objects: 30, MinStreams: 5, Bodies: big, Filters: shared.AllFilters, Info: true}, "w-2.0-aes256-seekable", ""},
+			docSpec{s + 6, shared.DocOptions{Version: pdf.V1_7, Seekable: true, Objects: 40, MinStreams: 8, Bodies: big, Info: true}, "w-pretty-seekable", ""},
+			docSpec{s + 7, shared.DocOptions{Version: pdf.V1_5, XRefStream: true, Seekable: false, Objects: 40, MinStreams: 8, Bodies: big, Filters: []string{"LZW"}}, "w-xrefstream-nonseekable", ""},
+			docSpec{s + 8, shared.DocOptions{Version: pdf.V1_3, Encrypt: true, Seekable: true, Objects: 24, MinStreams: 6, Bodies: big}, "w-rc4-seekable", ""})
 	}
 	return specs
 }
@@ -675,7 +704,7 @@ func run(ctx *core.Ctx) error {
 		"write: the whole Writer session of the document) under one fault plan; distinct = distinct (side, mode, call kind, site of the failed operation, plan, outcome class) combinations"
 	ctx.Ev.Assume("TLC evaluates IOFault.tla faithfully; the Ref operators state property C19")
 	ctx.Ev.Assume("fault-free outcomes are compared by digests: values by structure (stream extents through their decoded bytes), Reader meta data by version, catalog pages, Info title, ID, trailer keys and number of reported errors")
-	ctx.Ev.Assume("the faulty operation returns the sentinel error with no data or (partial variant) with the first half of the data")
+	ctx.Ev.Assume("the faulty operation returns the sentinel error with no data, with the first half of the data, or with all but the last 16 / 64 / 256 bytes")
 
 	cfg := "MC_IOFault_q.cfg"
 	if ctx.Thorough() {
@@ -703,9 +732,9 @@ func run(ctx *core.Ctx) error {
 	var runs []readRun
 	var specs []docSpec
 	for di, sp := range docSpecs(ctx) {
-		doc, err := shared.GenerateDoc(sp.Seed, sp.Opt)
+		doc, err := makeDoc(sp)
 		if err != nil {
-			return core.Infra("generate %s: %v", sp.Name, err)
+			return err
 		}
 		specs = append(specs, sp)
 		nr := 0
@@ -717,7 +746,7 @@ func run(ctx *core.Ctx) error {
 			nr += n
 			runs = append(runs, rr...)
 		}
-		ctx.Logf("%s (seed %d): %d bytes; %d ReadAt calls over the three modes; all positions x {failFrom, failOnly} x {no data, partial}", sp.Name, sp.Seed, len(doc.Bytes), nr)
+		ctx.Logf("%s (seed %d): %d bytes; %d ReadAt calls over the three modes; all positions x {failFrom, failOnly} x {no data, half, all but the last 16/64/256 bytes}", sp.Name, sp.Seed, len(doc.Bytes), nr)
 	}
 	for _, sp := range writeSpecs(ctx) {
 		di := len(specs)
@@ -727,7 +756,7 @@ func run(ctx *core.Ctx) error {
 			return err
 		}
 		runs = append(runs, wr...)
-		ctx.Logf("%s (seed %d): %d bytes; %d sink operations (Write/Seek); all positions x {failFrom, failOnly} x {nothing written, partial}", sp.Name, sp.Seed, size, nw)
+		ctx.Logf("%s (seed %d): %d bytes; %d sink operations (Write/Seek); all positions x {failFrom, failOnly} x {nothing written, half, all but the last 16/64/256 bytes}", sp.Name, sp.Seed, size, nw)
 	}
 
 	if err := judgeAndReport(ctx, runs, specs); err != nil {
@@ -769,7 +798,7 @@ func run(ctx *core.Ctx) error {
 	ctx.Ev.Set("faults_at_error_ignoring_helpers_call_returned_error", st.ignoredEr)
 	ctx.Ev.Exhaustive = hangs.Load() < maxHangs
 	ctx.Ev.Set("runs_that_hung", int(hangs.Load()))
-	ctx.Ev.Set("exhaustive_scope", "per generated document and scenario: every index k of a ReadAt / Write / Seek call, both plans, with and without partial data; the documents are seeded samples")
+	ctx.Ev.Set("exhaustive_scope", "per generated document and scenario: every index k of a ReadAt / Write / Seek call, both plans, the failing operation delivering nothing, the first half, or all but the last 16 / 64 / 256 bytes; the documents are seeded samples")
 	return nil
 }
 
@@ -792,8 +821,8 @@ func enumerateRead(ctx *core.Ctx, sp docSpec, di int, doc *shared.Doc, mode pdf.
 	var jobs []job
 	for k := 1; k <= n+1; k++ { // n+1: a fault that is never reached
 		for _, p := range []string{"failFrom", "failOnly"} {
-			for _, part := range []bool{false, true} {
-				jobs = append(jobs, job{faultPlan{p, k, part}})
+			for _, fl := range readFlavours {
+				jobs = append(jobs, job{faultPlan{p, k, fl.partial, fl.withhold}})
 			}
 		}
 	}
@@ -946,8 +975,8 @@ func enumerateWrite(ctx *core.Ctx, sp docSpec, di int, st *stats) ([]readRun, in
 	var out []readRun
 	for k := 1; k <= n+1; k++ {
 		for _, p := range []string{"failFrom", "failOnly"} {
-			for _, part := range []bool{false, true} {
-				fs := &faultSink{plan: faultPlan{p, k, part}, err: &injected{fmt.Sprintf("%s/%d", p, k)}}
+			for _, fl := range readFlavours {
+				fs := &faultSink{plan: faultPlan{p, k, fl.partial, fl.withhold}, err: &injected{fmt.Sprintf("%s/%d", p, k)}}
 				outs, data := runWrite(plan, fs)
 				rr := readRun{Side: "write", Doc: sp.Name, Mode: map[bool]string{true: "seekable", false: "non-seekable"}[sp.Opt.Seekable], Plan: fs.plan, Hit: fs.hit,
 					Calls: []callOut{}, Outs: outs, Count: 1, docIx: di}
@@ -1006,7 +1035,7 @@ func judge(ctx *core.Ctx, runs []readRun) ([]int, error) {
 
 func runSig(r readRun) string {
 	var b strings.Builder
-	fmt.Fprintf(&b, "%s|%s|%s|%s|%v|%v|%s|%s|%s|", r.Side, r.Doc, r.Mode, r.Plan.Plan, r.Plan.Partial, r.Hit, r.At, r.Via, r.In)
+	fmt.Fprintf(&b, "%s|%s|%s|%s|%v/%d|%v|%s|%s|%s|", r.Side, r.Doc, r.Mode, r.Plan.Plan, r.Plan.Partial, r.Plan.Withhold, r.Hit, r.At, r.Via, r.In)
 	for _, c := range r.Calls {
 		fmt.Fprintf(&b, "%s%s%v%v%v,", c.Call, c.Cls, c.Same, c.Carries, c.Malformed)
 	}
@@ -1160,7 +1189,7 @@ func describe(r readRun) string {
 			r.Mode, r.Plan.K, r.Plan.Plan, r.At, r.Via, r.Outs[0].Call, r.Outs[0].Cls)
 	}
 	c := r.Calls[0]
-	s := fmt.Sprintf("mode %s, plan %s(%d) data-with-error=%v (first failing ReadAt issued by %s", r.Mode, r.Plan.Plan, r.Plan.K, r.Plan.Partial, r.At)
+	s := fmt.Sprintf("mode %s, plan %s(%d) data-with-error=%v withheld-tail=%d (first failing ReadAt issued by %s", r.Mode, r.Plan.Plan, r.Plan.K, r.Plan.Partial, r.Plan.Withhold, r.At)
 	if r.Via != "" {
 		s += " under " + r.Via
 	}
@@ -1194,9 +1223,9 @@ func replay(ctx *core.Ctx, raw json.RawMessage) error {
 		}
 		runs = wr
 	} else {
-		doc, err := shared.GenerateDoc(c.Spec.Seed, c.Spec.Opt)
+		doc, err := makeDoc(c.Spec)
 		if err != nil {
-			return core.Infra("replay: %v", err)
+			return err
 		}
 		for m, name := range modeNames {
 			if name == c.Mode {
